@@ -63,9 +63,11 @@ finally:
         sh(f"git -C /repo worktree remove --force {W}"); shutil.rmtree(LAB, ignore_errors=True); sh("git -C /repo worktree prune")
 if confirmed and "--no-save" not in flags:
     d = f"/verif/seeded/{name}"; os.makedirs(d, exist_ok=True)
-    shutil.copy(patch, d + "/patch.diff"); shutil.copy(demo, d + "/demo.py")
+    def cp(a, b):
+        if os.path.abspath(a) != os.path.abspath(b): shutil.copy(a, b)
+    cp(patch, d + "/patch.diff"); cp(demo, d + "/demo.py")
     md = patch[:-5] + ".md"
-    if os.path.exists(md): shutil.copy(md, d + "/notes.md")
+    if os.path.exists(md): cp(md, d + "/notes.md")
     meta["detected_by"] = [r["check"] for r in meta["ran"] if r["exit"] == 1 and r["violation_lines"]]
     json.dump(meta, open(d + "/meta.json", "w"), indent=1)
 sys.exit(0 if confirmed else 2)
